@@ -596,7 +596,7 @@ fn judge(run: &mut Run, idx: usize, ex: &Expect, text: &str, mode: Mode, ana: &A
         }
     }
     let concat: String = w.morphs.iter().map(|m| m.p.surface.clone()).collect();
-    if ex.may_delete_all && w.morphs.is_empty() && w.cur.is_empty() && !text.is_empty() {
+    if w.morphs.is_empty() && w.cur.is_empty() && !text.is_empty() {
         run.bump("outcome:ok-normalised-text-empty(plugins deleted everything)");
         return;
     }
